@@ -47,7 +47,7 @@ func eqUnmarshalEntry(got any, e Node, path string, asCondExpr bool) error {
 	case "stack":
 		return eqUnmarshalStack(got, e, path)
 	case "cond":
-		if c, isCond := got.(stackage.Condition); isCond && asCondExpr {
+		if c, isCond := unwrapCond(got); isCond && asCondExpr {
 			// lenient: a Condition that is itself a Condition's expression may be passed through as-is
 			return eqRealCond(c, e, path)
 		}
@@ -108,13 +108,13 @@ func eqRealValue(v any, e Node, path string) error {
 			return fmt.Errorf("%s: %#v (%T), want %#v (%T)", path, v, v, want, want)
 		}
 	case "stack":
-		st, ok := v.(stackage.Stack)
+		st, ok := unwrapStack(v)
 		if !ok {
 			return fmt.Errorf("%s: %T, want a Stack", path, v)
 		}
 		return eqRealStack(st, e, path)
 	case "cond":
-		c, ok := v.(stackage.Condition)
+		c, ok := unwrapCond(v)
 		if !ok {
 			return fmt.Errorf("%s: %T, want a Condition", path, v)
 		}
@@ -132,9 +132,9 @@ func eqSlices(a, b any, path string) error {
 		return fmt.Errorf("%s: %T vs %T", path, a, b)
 	}
 	if !oka {
-		if ca, ok := stackage.ConvertCondition(a); ok {
+		if ca, ok := unwrapCond(a); ok {
 			// (a Condition passed through as-is keeps its alias wrapping; compare the underlying values)
-			cb, ok2 := stackage.ConvertCondition(b)
+			cb, ok2 := unwrapCond(b)
 			if !ok2 {
 				return fmt.Errorf("%s: Condition vs %T", path, b)
 			}
@@ -181,15 +181,15 @@ func condStructEq(a, b stackage.Condition) error {
 }
 
 func exprStructEq(a, b any) error {
-	if ca, ok := stackage.ConvertCondition(a); ok && ca.IsInit() {
-		cb, ok2 := stackage.ConvertCondition(b)
+	if ca, ok := unwrapCond(a); ok && ca.IsInit() {
+		cb, ok2 := unwrapCond(b)
 		if !ok2 {
 			return fmt.Errorf("Condition vs %T", b)
 		}
 		return condStructEq(ca, cb)
 	}
-	if sa, ok := stackage.ConvertStack(a); ok && sa.IsInit() {
-		sb, ok2 := stackage.ConvertStack(b)
+	if sa, ok := unwrapStack(a); ok && sa.IsInit() {
+		sb, ok2 := unwrapStack(b)
 		if !ok2 {
 			return fmt.Errorf("Stack vs %T", b)
 		}
@@ -321,7 +321,7 @@ func c04TreeGen(tier Tier) TreeGen {
 		Kinds: stackKinds,
 		Leaf:  func(t *rapid.T) Val { return genPrimVal(t, true, true) },
 		Conds: true, CondExprStack: true, CondExprCond: true, NotAsCondExpr: true,
-		NilLeaves: true, EmptyStacks: true, Caps: true, IndexOpts: true, FIFOOpt: true, Options: true, Ambient: true, WideRuns: true, NoNestAfter: true, ReadOnlyNodes: true, RejectValidity: true,
+		NilLeaves: true, EmptyStacks: true, Caps: true, IndexOpts: true, FIFOOpt: true, Options: true, Wraps: true, Ambient: true, WideRuns: true, NoNestAfter: true, ReadOnlyNodes: true, RejectValidity: true,
 	}
 	if tier.Thorough {
 		g.MaxDepth, g.MaxWidth, g.Budget = 5, 8, 55
